@@ -496,6 +496,8 @@ where
         v.sort_unstable_by(|a, b| {
             a.partial_cmp(b)
                 .expect("PartialOrd must work for ResultTextSelection")
+                //same offsets in different resources are different text selections: keep equal ones adjacent for dedup()
+                .then_with(|| a.resource().handle().cmp(&b.resource().handle()))
         });
         v.dedup();
         v
